@@ -174,7 +174,7 @@ def run(R, ctx):
     R.explanation = (
         "Decision tables of the evaluator's match expressions (variant -> constant / recurse), compared with the soundness skeleton an "
         "abstract interpreter of Lua needs: opaque leaves are Unknown, calls are effectful, unknown means 'maybe metatable', multi-value "
-        "sources are flagged, nothing unknown is turned into a literal. Arithmetic, coercion and formatting results are NOT decided."
+        "sources are flagged, nothing unknown is turned into a literal. Arithmetic, coercion and formatting results are NOT decided. Decision / transfer functions among these are decided by finite-domain evaluation of their typed tree (sa/peval.py): every point of a small abstract domain is evaluated and compared with the reference; nothing is sampled and no program input exists."
     )
     R.assumptions += ["only the shape of the tables is decided; the numeric/string semantics re-implemented in Rust need execution to compare"]
     from .. import peval
